@@ -91,7 +91,8 @@ N("C02", "hunt test through the public property", (H, "        if self._frame is
 N("C02", "raw store last octet via [-1]", (H, "and self._raw_frame_data[-1:][0] == self.CONTROL_ESCAPE", "and self._raw_frame_data[-1] == self.CONTROL_ESCAPE"))
 
 # ------------------------------------------------------------------------------------------------ C06
-S("C06", "read inspects len(data_chunk)", "N1", (H, "        self._buffer.extend(data_chunk)\n\n        if self._frame is None:", "        self._buffer.extend(data_chunk)\n        if len(data_chunk) == 0:\n            return frames_received\n\n        if self._frame is None:"))
+N("C06", "read returns at once for an empty chunk", (H, "        self._buffer.extend(data_chunk)\n\n        if self._frame is None:", "        self._buffer.extend(data_chunk)\n        if len(data_chunk) == 0:\n            return frames_received\n\n        if self._frame is None:"))
+S("C06", "read postpones chunks shorter than 4 octets", "N3", (H, "        self._buffer.extend(data_chunk)\n\n        if self._frame is None:", "        self._buffer.extend(data_chunk)\n        if len(data_chunk) < 4:\n            return frames_received\n\n        if self._frame is None:"))
 S("C06", "local counter carried across iterations", "N2", (H, "        while self._buffer.is_available:\n            frame_complete = self._read_next()\n            if frame_complete:",
                                                           "        count = 0\n        while self._buffer.is_available:\n            count = count + 1\n            frame_complete = self._read_next() and count < 9\n            if frame_complete:"))
 S("C06", "hunt row with a side effect", "N6", (H, "        elif self._frame is not None:  # not in hunt mode\n            self._append_to_frame(current)\n", "        elif self._frame is not None:  # not in hunt mode\n            self._append_to_frame(current)\n        else:\n            self._raw_frame_data.append(current)\n"))
